@@ -83,6 +83,9 @@ def run(tier):
     ck.cells = {"inputs_valid": nvalid, "inputs_multi_fault": nfault}
     if tier == "thorough":
         miri_slice(ck, [s for it, s in zip(items, srcs) if it.meta.get("faults")][:24])
+    if tier == "thorough":
+        from vlib import cov
+        cov.report(ck, "C19", srcs)
     return ck.finish()
 
 
@@ -92,17 +95,15 @@ def miri_slice(ck, srcs, seeds=(0, 1, 2, 3)):
     crate = common.harness_dir("xdrv")
     tgt = os.path.join(common.WORK, "tgt-miri")
     results = {}
-    with tempfile.NamedTemporaryFile("w", suffix=".jsonl", dir=common.WORK, delete=False) as f:
-        for i, s in enumerate(srcs):
-            f.write(json.dumps({"id": i, "src": s, "reps": 0, "notext": True}) + "\n")
-        inp = f.name
+    reqs = [json.dumps({"id": i, "src": s, "reps": 0, "notext": True}) for i, s in enumerate(srcs)]
 
     def one(seed):
+        # under Miri's isolation stdin is not available, so requests travel as arguments; isolation is what makes
+        # RandomState take its keys from Miri's own seeded RNG
         env = dict(common.ENV, MIRIFLAGS=f"-Zmiri-seed={seed}")
         try:
-            with open(inp) as fin:
-                p = subprocess.run(["cargo", "+nightly", "miri", "run", "--offline", "--features", "s1", "--target-dir", tgt], cwd=crate, env=env,
-                                   stdin=fin, stdout=subprocess.PIPE, stderr=subprocess.PIPE, timeout=3000)
+            p = subprocess.run(["cargo", "+nightly", "miri", "run", "--offline", "--features", "s1", "--target-dir", tgt, "--"] + reqs, cwd=crate, env=env,
+                               stdout=subprocess.PIPE, stderr=subprocess.PIPE, timeout=3000)
         except subprocess.TimeoutExpired:
             return seed, None, "timeout"
         outs = []
@@ -121,7 +122,6 @@ def miri_slice(ck, srcs, seeds=(0, 1, 2, 3)):
                 ck.note_inconclusive(f"miri seed {seed}: {len(outs or [])}/{len(srcs)} answers ({err[-200:]})")
                 continue
             results[seed] = outs
-    os.unlink(inp)
     if len(results) >= 2:
         ss = sorted(results)
         for i, s in enumerate(srcs):
